@@ -48,3 +48,6 @@ def run(ctx):
     from ..engines import storekeys as SK
     SK.w_insertion_discipline(ctx)
     ctx.floor("W2", 3)
+    from ..engines import jsonpairs as JP
+    JP.j11_pack_builders_carry_everything(ctx)
+    ctx.floor("J11", 6)
